@@ -13,7 +13,11 @@ open BV
 def WordTok (t : String) : Prop := t.toList ≠ [] ∧ ∀ c ∈ t.toList, isTokChar c = true ∧ isPunct c = false ∧ c ≠ ';' ∧ isSpaceChar c = false
 /-- a punctuation token: exactly one punctuation character -/
 def PunctTok (t : String) : Prop := ∃ c, t = String.ofList [c] ∧ isPunct c = true
-def ValidTok (t : String) : Prop := WordTok t ∨ PunctTok t
+/-- a quoted literal: opening quote, a body without that quote and without backslashes (whatever
+    else it contains: `;`, `,`, `:`, blanks, mnemonics), closing quote -/
+def QuotedTok (t : String) : Prop :=
+  ∃ q body, isQuote q = true ∧ (∀ c ∈ body, c ≠ q ∧ c ≠ '\\') ∧ t = String.ofList (q :: body ++ [q])
+def ValidTok (t : String) : Prop := WordTok t ∨ PunctTok t ∨ QuotedTok t
 
 /-- gaps: whitespace only, and non-empty between two adjacent word tokens -/
 def GapsOk : List String → List (List Char) → Prop
@@ -29,13 +33,24 @@ theorem tokenize_blank (l : List Char) (h : ∀ c ∈ l, isSpaceChar c = true) :
   rw [tokenize, this]; rfl
 
 /-- comments carry no meaning: everything from the first `;` on is ignored -/
-theorem tokenize_comment (s c : List Char) (h : ∀ x ∈ s, x ≠ ';') : tokenize (s ++ ';' :: c) = tokenize s :=
+theorem tokenize_comment (s c : List Char) (h : ∀ x ∈ s, x ≠ ';' ∧ isQuote x = false) :
+    tokenize (s ++ ';' :: c) = tokenize s :=
   tokenizeAux_comment s c [] [] h
+
+/-- … but a `;` (or `,`, `:`, a blank, a mnemonic) inside a quoted literal is part of the literal:
+    the literal is one token and scanning continues behind its closing quote -/
+theorem tokenize_quoted (q : Char) (body rest : List Char) (hq : isQuote q = true)
+    (hb : ∀ c ∈ body, c ≠ q ∧ c ≠ '\\') :
+    tokenize (q :: body ++ q :: rest) = String.ofList (q :: body ++ [q]) :: tokenize rest := by
+  unfold tokenize
+  rw [tokenizeAux_quoted q body rest [] hq hb]
+  have h := tokenizeAux_acc rest [String.ofList (q :: body ++ [q])]
+  simpa using h
 
 /-- accumulator form of `tokenize_join` -/
 theorem tokenizeAux_join (ts : List String) (gaps : List (List Char)) (acc : List String)
     (hv : ∀ t ∈ ts, ValidTok t) (hlen : gaps.length = ts.length) (hg : GapsOk ts gaps) :
-    tokenizeAux (joinToks ts gaps) [] acc = acc.reverse ++ ts := by
+    tokenizeAux none (joinToks ts gaps) [] acc = acc.reverse ++ ts := by
   induction ts generalizing gaps acc with
   | nil => simp [joinToks, tokenizeAux_nil]
   | cons t ts ih =>
@@ -65,26 +80,36 @@ theorem tokenizeAux_join (ts : List String) (gaps : List (List Char)) (acc : Lis
         intro hw c hc
         cases g with
         | nil =>
-          rcases hv' t' (List.mem_cons_self ..) with hw' | ⟨d, hd, hp⟩
+          rcases hv' t' (List.mem_cons_self ..) with hw' | ⟨d, hd, hp⟩ | ⟨q, body, hq, _, hd⟩
           · exact absurd rfl (hne ⟨hw, hw'⟩)
           · subst hd
             simp only [joinToks, String.toList_ofList, List.nil_append, List.cons_append,
               List.head?_cons, Option.some.injEq] at hc
-            subst hc; exact Or.inr hp
+            subst hc; exact Or.inr (Or.inl hp)
+          · subst hd
+            simp only [joinToks, String.toList_ofList, List.nil_append, List.cons_append,
+              List.head?_cons, Option.some.injEq] at hc
+            subst hc; exact Or.inr (Or.inr hq)
         | cons d g =>
           simp only [List.cons_append, List.head?_cons, Option.some.injEq] at hc
           subst hc; exact Or.inl (hsp _ (List.mem_cons_self ..))
     obtain ⟨hsp, hD, hrest⟩ := key
     have ih := ih gs (t :: acc) hv' hlen' hrest
     rw [joinToks, List.append_assoc]
-    rcases hvt with hw | ⟨d, hd, hp⟩
-    · rw [tokenizeAux_word t.toList _ [] acc (fun c hc => ⟨(hw.2 c hc).2.1, (hw.2 c hc).2.2.1, (hw.2 c hc).2.2.2⟩),
+    rcases hvt with hw | ⟨d, hd, hp⟩ | ⟨q, body, hq, hb, hd⟩
+    · rw [tokenizeAux_word t.toList _ [] acc (fun c hc => ⟨(hw.2 c hc).2.1, (hw.2 c hc).2.2.1, (hw.2 c hc).2.2.2,
+          isTokChar_not_quote (hw.2 c hc).1⟩),
         List.append_nil, tokenizeAux_flush _ _ acc (hD hw) (by simpa using hw.1),
         List.reverse_reverse, String.ofList_toList, tokenizeAux_spaces g _ _ hsp, ih]
       simp
     · subst hd
       rw [String.toList_ofList, List.cons_append, List.nil_append, tokenizeAux_punct d _ acc hp,
         tokenizeAux_spaces g _ _ hsp, ih]
+      simp
+    · subst hd
+      have hshape : (String.ofList (q :: body ++ [q])).toList ++ (g ++ joinToks ts gs)
+          = q :: body ++ q :: (g ++ joinToks ts gs) := by simp
+      rw [hshape, tokenizeAux_quoted q body _ acc hq hb, tokenizeAux_spaces g _ _ hsp, ih]
       simp
 
 /-- amount and kind of horizontal whitespace between tokens carry no meaning: however the tokens
@@ -151,6 +176,8 @@ theorem scanProgram_append (v : Vocab) (ls₁ ls₂ : List (List Char)) :
 
 /-- non-vacuity -/
 example : tokenize "  LDI\tA ,5 ; x".toList = ["LDI", "A", ",", "5"] := by decide +kernel
+example : tokenize "x: .byte ';', 1 ; c".toList = ["x", ":", ".byte", "';'", ",", "1"] := by decide +kernel
+example : tokenize ".cstr \"a;b, c: nop\" nop".toList = [".cstr", "\"a;b, c: nop\"", "nop"] := by decide +kernel
 example : tokenize "st[kone+1]".toList = ["st", "[", "kone", "+", "1", "]"] := by decide +kernel
 
 end BV.C18
